@@ -1,0 +1,138 @@
+//go:build verif
+
+package gohlslib
+
+import (
+	"time"
+)
+
+// Exporters for the verification harness (/verif, slices partdur and mvgen).
+// Nothing in this file is compiled into normal builds.
+
+// VerifMultiplyAndDivide exports multiplyAndDivide.
+func VerifMultiplyAndDivide(v, m, d int64) int64 { return multiplyAndDivide(v, m, d) }
+
+// VerifMultiplyAndDivide2 exports multiplyAndDivide2.
+func VerifMultiplyAndDivide2(v, m, d time.Duration) time.Duration { return multiplyAndDivide2(v, m, d) }
+
+// VerifDurationToTimestamp exports durationToTimestamp.
+func VerifDurationToTimestamp(d time.Duration, clockRate int) int64 {
+	return durationToTimestamp(d, clockRate)
+}
+
+// VerifTimestampToDuration exports timestampToDuration.
+func VerifTimestampToDuration(d int64, clockRate int) time.Duration {
+	return timestampToDuration(d, clockRate)
+}
+
+// VerifPartDurationIsCompatible exports partDurationIsCompatible.
+func VerifPartDurationIsCompatible(partDuration, sampleDuration time.Duration) bool {
+	return partDurationIsCompatible(partDuration, sampleDuration)
+}
+
+// VerifFindCompatiblePartDuration exports findCompatiblePartDuration.
+func VerifFindCompatiblePartDuration(minPartDuration time.Duration, sampleDurations []time.Duration) time.Duration {
+	m := make(map[time.Duration]struct{})
+	for _, sd := range sampleDurations {
+		m[sd] = struct{}{}
+	}
+	return findCompatiblePartDuration(minPartDuration, m)
+}
+
+// VerifPartState is a read-only snapshot of what C19 is about.
+type VerifPartState struct {
+	Adjusted   time.Duration     // segmenter.fmp4AdjustedPartDuration
+	PartTarget time.Duration     // leading stream's partTargetDuration
+	Finished   int               // number of finished (non-gap) segments of the leading stream still in the window
+	Gaps       int               // gap entries in the window
+	Segments   [][]time.Duration // part durations of the finished segments in the window
+	Open       []time.Duration   // part durations of the open segment
+	NextSegID  uint64
+}
+
+// VerifPartState returns the snapshot (takes the muxer mutex like a handler does).
+func (m *Muxer) VerifPartState() VerifPartState {
+	m.mutex.Lock()
+	defer m.mutex.Unlock()
+
+	st := VerifPartState{
+		Adjusted:   m.segmenter.fmp4AdjustedPartDuration,
+		PartTarget: m.leadingStream.partTargetDuration,
+		NextSegID:  m.leadingStream.nextSegmentID,
+	}
+	for _, seg := range m.leadingStream.segments {
+		switch s := seg.(type) {
+		case *muxerSegmentFMP4:
+			var ps []time.Duration
+			for _, p := range s.parts {
+				ps = append(ps, p.getDuration())
+			}
+			st.Segments = append(st.Segments, ps)
+			st.Finished++
+		case *muxerGap:
+			st.Gaps++
+		}
+	}
+	if ns, ok := m.leadingStream.nextSegment.(*muxerSegmentFMP4); ok && ns != nil {
+		for _, p := range ns.parts {
+			st.Open = append(st.Open, p.getDuration())
+		}
+	}
+	return st
+}
+
+// verifSegment is a segment with a given size and duration (for VerifBandwidth).
+type verifSegment struct {
+	muxerGap
+	size uint64
+	dur  time.Duration
+}
+
+func (s verifSegment) getDuration() time.Duration { return s.dur }
+func (s verifSegment) getSize() uint64            { return s.size }
+
+// VerifBandwidth runs bandwidth() over a list of (size, duration) pairs; gap[i] makes entry i a gap.
+func VerifBandwidth(sizes []uint64, durs []time.Duration, gap []bool) (int, int) {
+	var segs []muxerSegment
+	for i := range sizes {
+		if gap[i] {
+			segs = append(segs, &muxerGap{duration: durs[i]})
+		} else {
+			segs = append(segs, &verifSegment{size: sizes[i], dur: durs[i]})
+		}
+	}
+	return bandwidth(segs)
+}
+
+// VerifStreamInfo is what Start assigned to one stream.
+type VerifStreamInfo struct {
+	ID          string
+	IsLeading   bool
+	IsRendition bool
+	IsDefault   bool
+	Name        string
+	Language    string
+}
+
+// VerifStreams returns the stream assignment made by Start.
+func (m *Muxer) VerifStreams() []VerifStreamInfo {
+	var out []VerifStreamInfo
+	for _, s := range m.streams {
+		out = append(out, VerifStreamInfo{s.id, s.isLeading, s.isRendition, s.isDefault, s.name, s.language})
+	}
+	return out
+}
+
+// VerifSegments returns (size, duration, isGap) of the entries of streams[0].segments,
+// the list bandwidth() is computed from.
+func (m *Muxer) VerifSegments() (sizes []uint64, durs []time.Duration, gaps []bool) {
+	m.mutex.Lock()
+	defer m.mutex.Unlock()
+	for _, seg := range m.streams[0].segments {
+		_, isGap := seg.(*muxerGap)
+		sizes = append(sizes, seg.getSize())
+		durs = append(durs, seg.getDuration())
+		gaps = append(gaps, isGap)
+	}
+	return
+}
